@@ -180,3 +180,28 @@ for nm in ("iqn.a", "iqn.ab", "iqn.abc", "iqn.abcd", "iqn.1993-08.org.debian:01:
     case("TransportID iSCSI name of %d characters with session id" % len(nm), FS,
          lambda nm=nm: tid(5, fmt=1, iscsi_name=nm, iscsi_initiator_session_id="00023d000001"),
          marshall="marshall_transport_id", unmarshall="unmarshall_transport_id")
+
+
+# ---- deeper shapes (thorough tier) ------------------------------------------
+MORE_CASES = []
+_saved = CASES
+CASES = MORE_CASES
+for n in (3, 5, 9):
+    case("GET LBA STATUS, %d descriptors" % n, GL, lambda n=n: {"lbas": [leaves(GL + "._datain_bits", "lba%d" % i) for i in range(n)]})
+for n in (2, 8, 17):
+    case("REPORT LUNS, %d LUNs" % n, RL, lambda n=n: {"luns": [{"lun%d" % i: S(("lun", i), 64)} for i in range(n)]})
+for ext in (False, True):
+    for shape in ((0,), (3, 3, 1, 0, 2), (1, 1, 1, 1, 1, 1), (7,)):
+        case("REPORT TARGET PORT GROUPS %s header, groups %r" % ("extended" if ext else "length-only", shape), RT,
+             lambda ext=ext, shape=shape: rtpg(ext, shape))
+for pages in ([(1, 0, 0, 3), (2, 1, 1, 2), (3, 0, 1, 1), (4, 1, 0, 4)], [(2, 0, 0, 0)], [(2, 0, 0, 6)], [(4, 0, 0, 1)] * 3):
+    case("READ ELEMENT STATUS pages %r" % (pages,), RE, lambda pages=pages: res(pages))
+case("INQUIRY VPD 83h all designator kinds", INQ, lambda: vpd83(DESIGNATOR_KINDS), ukw={"evpd": 1})
+case("INQUIRY VPD 83h eight NAA designators", INQ, lambda: vpd83(["naa2", "naa3", "naa5", "naa6"] * 2), ukw={"evpd": 1})
+for n in range(1, 37, 5):
+    case("INQUIRY VPD 80h, %d-byte serial" % n, INQ, lambda n=n: dict(_hdr("vpd"), page_code=0x80, unit_serial_number=sym_blob("serial", n)), ukw={"evpd": 1})
+for ln in range(1, 41):
+    nm = "iqn." + "x" * ln
+    case("TransportID iSCSI name of %d characters" % len(nm), FS, lambda nm=nm: tid(5, iscsi_name=nm),
+         marshall="marshall_transport_id", unmarshall="unmarshall_transport_id")
+CASES = _saved
